@@ -192,7 +192,7 @@ def standin(rep):
     rep.add_bounded('Quantizer.calibrate (public API) vs our own interpreter runs',
                     f'{len(models)} fixtures x default_a8w8 recipe x {len(seeds)} seeded dataset(s) of 3 samples: for n = 1..3 every recorded runtime tensor == moving average (0.95, binary64 reference, rtol 2e-5) of the true per-sample '
                     'min/max in dataset order (and of the reversed order for the reversed dataset); every constant == true per-tensor / per-channel min/max; every split of the n samples into resumed sessions == the single pass BITWISE, '
-                    'previous result unchanged and sharing no array with the returned one; + two_signatures.tflite: both signatures, second session resumed', cases, len(fails))
+                    'previous result unchanged and sharing no array with the returned one; several sessions on ONE Quantizer (a session without a previous result equals a fresh Quantizer, earlier results untouched, resuming equals the single pass); + two_signatures.tflite: both signatures, second session resumed', cases, len(fails))
     if fails:
         ob = core.Ob('C09/bounded.Quantizer.calibrate/statistics-exact-ordered-resumable', None, 'bounded-native', core.REFUTED, 0.0, detail=str(fails[0])[:1500], clause=fails[0].get('what', ''))
         ob.replay = dict(confirmed=True, inputs={k: v for k, v in fails[0].items() if k in ('model', 'seed', 'n', 'sessions', 'tensor', 'signature')}, observed=fails[0]); rep.add(ob)
